@@ -218,8 +218,8 @@ def run_random(out, prop, tier, seed, escalate=False):
         chunks = max(1, nruns // 300)
         for ch in range(chunks):
             n = nruns // chunks
-            st = hv(HV_CORE, ["tcb-drive", "--seed", str(seed * 131 + ch), "--runs", str(n), "--profile", prof,
-                              "--steps", "110", "--out", tp, "--sched", sp])
+            st = hv_hangsafe(HV_CORE, ["tcb-drive", "--seed", str(seed * 131 + ch), "--profile", prof,
+                                       "--steps", "110", "--out", tp, "--sched", sp], n)
             cover = max(cover, st["cover"])
             res = tlc_trace("TraceTcp.tla", os.path.join(SPEC, "TraceTcp.cfg"), tp, "tt-" + prop + prof)
             judge(out, prop, res, sp, "tcb-replay")
